@@ -469,42 +469,42 @@ harnesses! {
     c12_capacity { prop: C12, feat: "c12", tier: quick, mode: cap, unwind: 4, caps: "run=1,clone=1,drop=1" } => |s| c12::capacity(s);
     // ---- C13: device gate
     // ---- C16: directive handlers never panic; symbol evaluation terminates
-    c16_dir_byte { prop: C16, feat: "c16", tier: quick, mode: full, unwind: 4, caps: "run=1,clone=1,drop=1" } => |s| c16::dir_parse(s, 0, 1);
-    c16_dir_cseg { prop: C16, feat: "c16", tier: quick, mode: full, unwind: 4, caps: "run=1,clone=1,drop=1" } => |s| c16::dir_parse(s, 1, 2);
-    c16_dir_csegsize { prop: C16, feat: "c16", tier: quick, mode: full, unwind: 4, caps: "run=1,clone=1,drop=1" } => |s| c16::dir_parse(s, 2, 3);
-    c16_dir_db { prop: C16, feat: "c16", tier: quick, mode: full, unwind: 4, caps: "run=1,clone=1,drop=1" } => |s| c16::dir_parse(s, 3, 4);
-    c16_dir_def { prop: C16, feat: "c16", tier: quick, mode: full, unwind: 4, caps: "run=1,clone=1,drop=1" } => |s| c16::dir_parse(s, 4, 5);
-    c16_dir_device { prop: C16, feat: "c16", tier: quick, mode: full, unwind: 4, caps: "run=1,clone=1,drop=1" } => |s| c16::dir_parse(s, 5, 6);
-    c16_dir_dseg { prop: C16, feat: "c16", tier: quick, mode: full, unwind: 4, caps: "run=1,clone=1,drop=1" } => |s| c16::dir_parse(s, 6, 7);
-    c16_dir_dw { prop: C16, feat: "c16", tier: quick, mode: full, unwind: 4, caps: "run=1,clone=1,drop=1" } => |s| c16::dir_parse(s, 7, 8);
-    c16_dir_endm { prop: C16, feat: "c16", tier: quick, mode: full, unwind: 4, caps: "run=1,clone=1,drop=1" } => |s| c16::dir_parse(s, 8, 9);
-    c16_dir_endmacro { prop: C16, feat: "c16", tier: quick, mode: full, unwind: 4, caps: "run=1,clone=1,drop=1" } => |s| c16::dir_parse(s, 9, 10);
-    c16_dir_equ { prop: C16, feat: "c16", tier: quick, mode: full, unwind: 4, caps: "run=1,clone=1,drop=1" } => |s| c16::dir_parse(s, 10, 11);
-    c16_dir_eseg { prop: C16, feat: "c16", tier: quick, mode: full, unwind: 4, caps: "run=1,clone=1,drop=1" } => |s| c16::dir_parse(s, 11, 12);
-    c16_dir_exit { prop: C16, feat: "c16", tier: quick, mode: full, unwind: 4, caps: "run=1,clone=1,drop=1" } => |s| c16::dir_parse(s, 12, 13);
-    c16_dir_list { prop: C16, feat: "c16", tier: quick, mode: full, unwind: 4, caps: "run=1,clone=1,drop=1" } => |s| c16::dir_parse(s, 15, 16);
-    c16_dir_listmac { prop: C16, feat: "c16", tier: quick, mode: full, unwind: 4, caps: "run=1,clone=1,drop=1" } => |s| c16::dir_parse(s, 16, 17);
-    c16_dir_macro { prop: C16, feat: "c16", tier: quick, mode: full, unwind: 4, caps: "run=1,clone=1,drop=1" } => |s| c16::dir_parse(s, 17, 18);
-    c16_dir_nolist { prop: C16, feat: "c16", tier: quick, mode: full, unwind: 4, caps: "run=1,clone=1,drop=1" } => |s| c16::dir_parse(s, 18, 19);
-    c16_dir_org { prop: C16, feat: "c16", tier: quick, mode: full, unwind: 4, caps: "run=1,clone=1,drop=1" } => |s| c16::dir_parse(s, 19, 20);
-    c16_dir_set { prop: C16, feat: "c16", tier: quick, mode: full, unwind: 4, caps: "run=1,clone=1,drop=1" } => |s| c16::dir_parse(s, 20, 21);
-    c16_dir_define { prop: C16, feat: "c16", tier: quick, mode: full, unwind: 4, caps: "run=1,clone=1,drop=1" } => |s| c16::dir_parse(s, 21, 22);
-    c16_dir_else { prop: C16, feat: "c16", tier: quick, mode: full, unwind: 4, caps: "run=1,clone=1,drop=1" } => |s| c16::dir_parse(s, 22, 23);
-    c16_dir_elif { prop: C16, feat: "c16", tier: quick, mode: full, unwind: 4, caps: "run=1,clone=1,drop=1" } => |s| c16::dir_parse(s, 23, 24);
-    c16_dir_endif { prop: C16, feat: "c16", tier: quick, mode: full, unwind: 4, caps: "run=1,clone=1,drop=1" } => |s| c16::dir_parse(s, 24, 25);
-    c16_dir_error { prop: C16, feat: "c16", tier: quick, mode: full, unwind: 4, caps: "run=1,clone=1,drop=1" } => |s| c16::dir_parse(s, 25, 26);
-    c16_dir_if { prop: C16, feat: "c16", tier: quick, mode: full, unwind: 4, caps: "run=1,clone=1,drop=1" } => |s| c16::dir_parse(s, 26, 27);
-    c16_dir_ifdef { prop: C16, feat: "c16", tier: quick, mode: full, unwind: 4, caps: "run=1,clone=1,drop=1" } => |s| c16::dir_parse(s, 27, 28);
-    c16_dir_ifndef { prop: C16, feat: "c16", tier: quick, mode: full, unwind: 4, caps: "run=1,clone=1,drop=1" } => |s| c16::dir_parse(s, 28, 29);
-    c16_dir_message { prop: C16, feat: "c16", tier: quick, mode: full, unwind: 4, caps: "run=1,clone=1,drop=1" } => |s| c16::dir_parse(s, 29, 30);
-    c16_dir_dd { prop: C16, feat: "c16", tier: quick, mode: full, unwind: 4, caps: "run=1,clone=1,drop=1" } => |s| c16::dir_parse(s, 30, 31);
-    c16_dir_dq { prop: C16, feat: "c16", tier: quick, mode: full, unwind: 4, caps: "run=1,clone=1,drop=1" } => |s| c16::dir_parse(s, 31, 32);
-    c16_dir_undef { prop: C16, feat: "c16", tier: quick, mode: full, unwind: 4, caps: "run=1,clone=1,drop=1" } => |s| c16::dir_parse(s, 32, 33);
-    c16_dir_warning { prop: C16, feat: "c16", tier: quick, mode: full, unwind: 4, caps: "run=1,clone=1,drop=1" } => |s| c16::dir_parse(s, 33, 34);
-    c16_dir_overlap { prop: C16, feat: "c16", tier: quick, mode: full, unwind: 4, caps: "run=1,clone=1,drop=1" } => |s| c16::dir_parse(s, 34, 35);
-    c16_dir_nooverlap { prop: C16, feat: "c16", tier: quick, mode: full, unwind: 4, caps: "run=1,clone=1,drop=1" } => |s| c16::dir_parse(s, 35, 36);
-    c16_dir_pragma { prop: C16, feat: "c16", tier: quick, mode: full, unwind: 4, caps: "run=1,clone=1,drop=1" } => |s| c16::dir_parse(s, 36, 37);
-    c16_dir_custom { prop: C16, feat: "c16", tier: quick, mode: full, unwind: 4, caps: "run=1,clone=1,drop=1" } => |s| c16::dir_parse(s, 37, 38);
+    c16_dir_byte { prop: C16, feat: "c16", tier: quick, mode: leaf, unwind: 4, caps: "drop=1" } => |s| c16::dir_parse(s, 0, 1);
+    c16_dir_cseg { prop: C16, feat: "c16", tier: quick, mode: leaf, unwind: 4, caps: "drop=1" } => |s| c16::dir_parse(s, 1, 2);
+    c16_dir_csegsize { prop: C16, feat: "c16", tier: quick, mode: leaf, unwind: 4, caps: "drop=1" } => |s| c16::dir_parse(s, 2, 3);
+    c16_dir_db { prop: C16, feat: "c16", tier: quick, mode: leaf, unwind: 4, caps: "drop=1" } => |s| c16::dir_parse(s, 3, 4);
+    c16_dir_def { prop: C16, feat: "c16", tier: quick, mode: leaf, unwind: 4, caps: "drop=1" } => |s| c16::dir_parse(s, 4, 5);
+    c16_dir_device { prop: C16, feat: "c16", tier: quick, mode: leaf, unwind: 4, caps: "drop=1" } => |s| c16::dir_parse(s, 5, 6);
+    c16_dir_dseg { prop: C16, feat: "c16", tier: quick, mode: leaf, unwind: 4, caps: "drop=1" } => |s| c16::dir_parse(s, 6, 7);
+    c16_dir_dw { prop: C16, feat: "c16", tier: quick, mode: leaf, unwind: 4, caps: "drop=1" } => |s| c16::dir_parse(s, 7, 8);
+    c16_dir_endm { prop: C16, feat: "c16", tier: quick, mode: leaf, unwind: 4, caps: "drop=1" } => |s| c16::dir_parse(s, 8, 9);
+    c16_dir_endmacro { prop: C16, feat: "c16", tier: quick, mode: leaf, unwind: 4, caps: "drop=1" } => |s| c16::dir_parse(s, 9, 10);
+    c16_dir_equ { prop: C16, feat: "c16", tier: quick, mode: leaf, unwind: 4, caps: "drop=1" } => |s| c16::dir_parse(s, 10, 11);
+    c16_dir_eseg { prop: C16, feat: "c16", tier: quick, mode: leaf, unwind: 4, caps: "drop=1" } => |s| c16::dir_parse(s, 11, 12);
+    c16_dir_exit { prop: C16, feat: "c16", tier: quick, mode: leaf, unwind: 4, caps: "drop=1" } => |s| c16::dir_parse(s, 12, 13);
+    c16_dir_list { prop: C16, feat: "c16", tier: quick, mode: leaf, unwind: 4, caps: "drop=1" } => |s| c16::dir_parse(s, 15, 16);
+    c16_dir_listmac { prop: C16, feat: "c16", tier: quick, mode: leaf, unwind: 4, caps: "drop=1" } => |s| c16::dir_parse(s, 16, 17);
+    c16_dir_macro { prop: C16, feat: "c16", tier: quick, mode: leaf, unwind: 4, caps: "drop=1" } => |s| c16::dir_parse(s, 17, 18);
+    c16_dir_nolist { prop: C16, feat: "c16", tier: quick, mode: leaf, unwind: 4, caps: "drop=1" } => |s| c16::dir_parse(s, 18, 19);
+    c16_dir_org { prop: C16, feat: "c16", tier: quick, mode: leaf, unwind: 4, caps: "drop=1" } => |s| c16::dir_parse(s, 19, 20);
+    c16_dir_set { prop: C16, feat: "c16", tier: quick, mode: leaf, unwind: 4, caps: "drop=1" } => |s| c16::dir_parse(s, 20, 21);
+    c16_dir_define { prop: C16, feat: "c16", tier: quick, mode: leaf, unwind: 4, caps: "drop=1" } => |s| c16::dir_parse(s, 21, 22);
+    c16_dir_else { prop: C16, feat: "c16", tier: quick, mode: leaf, unwind: 4, caps: "drop=1" } => |s| c16::dir_parse(s, 22, 23);
+    c16_dir_elif { prop: C16, feat: "c16", tier: quick, mode: leaf, unwind: 4, caps: "drop=1" } => |s| c16::dir_parse(s, 23, 24);
+    c16_dir_endif { prop: C16, feat: "c16", tier: quick, mode: leaf, unwind: 4, caps: "drop=1" } => |s| c16::dir_parse(s, 24, 25);
+    c16_dir_error { prop: C16, feat: "c16", tier: quick, mode: leaf, unwind: 4, caps: "drop=1" } => |s| c16::dir_parse(s, 25, 26);
+    c16_dir_if { prop: C16, feat: "c16", tier: quick, mode: leaf, unwind: 4, caps: "drop=1" } => |s| c16::dir_parse(s, 26, 27);
+    c16_dir_ifdef { prop: C16, feat: "c16", tier: quick, mode: leaf, unwind: 4, caps: "drop=1" } => |s| c16::dir_parse(s, 27, 28);
+    c16_dir_ifndef { prop: C16, feat: "c16", tier: quick, mode: leaf, unwind: 4, caps: "drop=1" } => |s| c16::dir_parse(s, 28, 29);
+    c16_dir_message { prop: C16, feat: "c16", tier: quick, mode: leaf, unwind: 4, caps: "drop=1" } => |s| c16::dir_parse(s, 29, 30);
+    c16_dir_dd { prop: C16, feat: "c16", tier: quick, mode: leaf, unwind: 4, caps: "drop=1" } => |s| c16::dir_parse(s, 30, 31);
+    c16_dir_dq { prop: C16, feat: "c16", tier: quick, mode: leaf, unwind: 4, caps: "drop=1" } => |s| c16::dir_parse(s, 31, 32);
+    c16_dir_undef { prop: C16, feat: "c16", tier: quick, mode: leaf, unwind: 4, caps: "drop=1" } => |s| c16::dir_parse(s, 32, 33);
+    c16_dir_warning { prop: C16, feat: "c16", tier: quick, mode: leaf, unwind: 4, caps: "drop=1" } => |s| c16::dir_parse(s, 33, 34);
+    c16_dir_overlap { prop: C16, feat: "c16", tier: quick, mode: leaf, unwind: 4, caps: "drop=1" } => |s| c16::dir_parse(s, 34, 35);
+    c16_dir_nooverlap { prop: C16, feat: "c16", tier: quick, mode: leaf, unwind: 4, caps: "drop=1" } => |s| c16::dir_parse(s, 35, 36);
+    c16_dir_pragma { prop: C16, feat: "c16", tier: quick, mode: leaf, unwind: 4, caps: "drop=1" } => |s| c16::dir_parse(s, 36, 37);
+    c16_dir_custom { prop: C16, feat: "c16", tier: quick, mode: leaf, unwind: 4, caps: "drop=1" } => |s| c16::dir_parse(s, 37, 38);
     c06_data1_k { prop: C06, feat: "c06", tier: quick, mode: leaf, unwind: 18, caps: "drop=1" } => |s| c06::data_w(s, 1, 0);
     c06_data1_symb { prop: C06, feat: "c06", tier: quick, mode: leaf, unwind: 18, caps: "drop=1" } => |s| c06::data_w(s, 1, 1);
     c06_data1_symu { prop: C06, feat: "c06", tier: quick, mode: leaf, unwind: 18, caps: "drop=1" } => |s| c06::data_w(s, 1, 2);
@@ -589,4 +589,24 @@ harnesses! {
     c05_func_log2_neg { prop: C05, feat: "c05", tier: thorough, mode: full, unwind: 7, caps: "run=2,clone=1,drop=2,loop:avra_lib::expr::Expr::run_nested.0=67" } => |s| c05::ev_func(s, 9, 10, 0);
     // ---- pass-level scenarios (real build_pass_1 + build_pass_2; mode pass, see step.rs)
     p02_instr_nop { prop: X02, feat: "c02", tier: thorough, mode: pass, unwind: 3, caps: "drop=1,loop:avra_lib::builder::pass1::pass_1_internal.0=5,loop:avra_lib::builder::pass2::pass_2_internal.0=5" } => |s| step::layout_instr(s, 0, false);
+    p06_db_1 { prop: X06, feat: "c06", tier: thorough, mode: pass, unwind: 4, caps: "drop=1,loop:avra_lib::builder::pass1::pass_1_internal.0=7,loop:avra_lib::builder::pass2::pass_2_internal.0=7,loop:avra_lib::builder::pass1::build_pass_1.0=5,loop:avra_lib::builder::pass2::build_pass_2.0=5" } => |s| step::layout_db(s, 1);
+    p06_db_2 { prop: X06, feat: "c06", tier: thorough, mode: pass, unwind: 4, caps: "drop=1,loop:avra_lib::builder::pass1::pass_1_internal.0=7,loop:avra_lib::builder::pass2::pass_2_internal.0=7,loop:avra_lib::builder::pass1::build_pass_1.0=5,loop:avra_lib::builder::pass2::build_pass_2.0=5" } => |s| step::layout_db(s, 2);
+    p06_db_3 { prop: X06, feat: "c06", tier: thorough, mode: pass, unwind: 4, caps: "drop=1,loop:avra_lib::builder::pass1::pass_1_internal.0=7,loop:avra_lib::builder::pass2::pass_2_internal.0=7,loop:avra_lib::builder::pass1::build_pass_1.0=5,loop:avra_lib::builder::pass2::build_pass_2.0=5" } => |s| step::layout_db(s, 3);
+    p02_eeprom_cont { prop: X02, feat: "c02", tier: thorough, mode: pass, unwind: 4, caps: "drop=1,loop:avra_lib::builder::pass1::pass_1_internal.0=7,loop:avra_lib::builder::pass2::pass_2_internal.0=7,loop:avra_lib::builder::pass1::build_pass_1.0=5,loop:avra_lib::builder::pass2::build_pass_2.0=5" } => |s| step::eeprom_blocks(s, false);
+    p02_eeprom_org { prop: X02, feat: "c02", tier: thorough, mode: pass, unwind: 4, caps: "drop=1,loop:avra_lib::builder::pass1::pass_1_internal.0=7,loop:avra_lib::builder::pass2::pass_2_internal.0=7,loop:avra_lib::builder::pass1::build_pass_1.0=5,loop:avra_lib::builder::pass2::build_pass_2.0=5" } => |s| step::eeprom_blocks(s, true);
+    p06_reserve { prop: X06, feat: "c06", tier: thorough, mode: pass, unwind: 4, caps: "drop=1,loop:avra_lib::builder::pass1::pass_1_internal.0=7,loop:avra_lib::builder::pass2::pass_2_internal.0=7,loop:avra_lib::builder::pass1::build_pass_1.0=5,loop:avra_lib::builder::pass2::build_pass_2.0=5" } => |s| step::reservations(s, false);
+    p06_reserve_org { prop: X06, feat: "c06", tier: thorough, mode: pass, unwind: 4, caps: "drop=1,loop:avra_lib::builder::pass1::pass_1_internal.0=7,loop:avra_lib::builder::pass2::pass_2_internal.0=7,loop:avra_lib::builder::pass1::build_pass_1.0=5,loop:avra_lib::builder::pass2::build_pass_2.0=5" } => |s| step::reservations(s, true);
+    p06_wrongseg_0 { prop: X06, feat: "c06", tier: thorough, mode: pass, unwind: 4, caps: "drop=1,loop:avra_lib::builder::pass1::pass_1_internal.0=7,loop:avra_lib::builder::pass2::pass_2_internal.0=7,loop:avra_lib::builder::pass1::build_pass_1.0=5,loop:avra_lib::builder::pass2::build_pass_2.0=5" } => |s| step::wrong_segment(s, 0);
+    p06_wrongseg_1 { prop: X06, feat: "c06", tier: thorough, mode: pass, unwind: 4, caps: "drop=1,loop:avra_lib::builder::pass1::pass_1_internal.0=7,loop:avra_lib::builder::pass2::pass_2_internal.0=7,loop:avra_lib::builder::pass1::build_pass_1.0=5,loop:avra_lib::builder::pass2::build_pass_2.0=5" } => |s| step::wrong_segment(s, 1);
+    p06_wrongseg_2 { prop: X06, feat: "c06", tier: thorough, mode: pass, unwind: 4, caps: "drop=1,loop:avra_lib::builder::pass1::pass_1_internal.0=7,loop:avra_lib::builder::pass2::pass_2_internal.0=7,loop:avra_lib::builder::pass1::build_pass_1.0=5,loop:avra_lib::builder::pass2::build_pass_2.0=5" } => |s| step::wrong_segment(s, 2);
+    p06_wrongseg_3 { prop: X06, feat: "c06", tier: thorough, mode: pass, unwind: 4, caps: "drop=1,loop:avra_lib::builder::pass1::pass_1_internal.0=7,loop:avra_lib::builder::pass2::pass_2_internal.0=7,loop:avra_lib::builder::pass1::build_pass_1.0=5,loop:avra_lib::builder::pass2::build_pass_2.0=5" } => |s| step::wrong_segment(s, 3);
+    p06_wrongseg_4 { prop: X06, feat: "c06", tier: thorough, mode: pass, unwind: 4, caps: "drop=1,loop:avra_lib::builder::pass1::pass_1_internal.0=7,loop:avra_lib::builder::pass2::pass_2_internal.0=7,loop:avra_lib::builder::pass1::build_pass_1.0=5,loop:avra_lib::builder::pass2::build_pass_2.0=5" } => |s| step::wrong_segment(s, 4);
+    p10_set_seq { prop: X10, feat: "c10", tier: thorough, mode: pass, unwind: 4, caps: "drop=1,loop:avra_lib::builder::pass1::pass_1_internal.0=7,loop:avra_lib::builder::pass2::pass_2_internal.0=7,loop:avra_lib::builder::pass1::build_pass_1.0=5,loop:avra_lib::builder::pass2::build_pass_2.0=5" } => |s| step::set_sequence(s);
+    p10_set_dseg { prop: X10, feat: "c10", tier: thorough, mode: pass, unwind: 4, caps: "drop=1,loop:avra_lib::builder::pass1::pass_1_internal.0=7,loop:avra_lib::builder::pass2::pass_2_internal.0=7,loop:avra_lib::builder::pass1::build_pass_1.0=5,loop:avra_lib::builder::pass2::build_pass_2.0=5" } => |s| step::set_in_dseg(s);
+    p10_def { prop: X10, feat: "c10", tier: thorough, mode: pass, unwind: 4, caps: "drop=1,loop:avra_lib::builder::pass1::pass_1_internal.0=7,loop:avra_lib::builder::pass2::pass_2_internal.0=7,loop:avra_lib::builder::pass1::build_pass_1.0=5,loop:avra_lib::builder::pass2::build_pass_2.0=5" } => |s| step::def_undef(s, 0);
+    p10_undef { prop: X10, feat: "c10", tier: thorough, mode: pass, unwind: 4, caps: "drop=1,loop:avra_lib::builder::pass1::pass_1_internal.0=7,loop:avra_lib::builder::pass2::pass_2_internal.0=7,loop:avra_lib::builder::pass1::build_pass_1.0=5,loop:avra_lib::builder::pass2::build_pass_2.0=5" } => |s| step::def_undef(s, 1);
+    p10_duplabel_0 { prop: X10, feat: "c10", tier: thorough, mode: pass, unwind: 4, caps: "drop=1,loop:avra_lib::builder::pass1::pass_1_internal.0=7,loop:avra_lib::builder::pass2::pass_2_internal.0=7,loop:avra_lib::builder::pass1::build_pass_1.0=5,loop:avra_lib::builder::pass2::build_pass_2.0=5" } => |s| step::duplicate_label(s, 0);
+    p10_duplabel_1 { prop: X10, feat: "c10", tier: thorough, mode: pass, unwind: 4, caps: "drop=1,loop:avra_lib::builder::pass1::pass_1_internal.0=7,loop:avra_lib::builder::pass2::pass_2_internal.0=7,loop:avra_lib::builder::pass1::build_pass_1.0=5,loop:avra_lib::builder::pass2::build_pass_2.0=5" } => |s| step::duplicate_label(s, 1);
+    p10_duplabel_2 { prop: X10, feat: "c10", tier: thorough, mode: pass, unwind: 4, caps: "drop=1,loop:avra_lib::builder::pass1::pass_1_internal.0=7,loop:avra_lib::builder::pass2::pass_2_internal.0=7,loop:avra_lib::builder::pass1::build_pass_1.0=5,loop:avra_lib::builder::pass2::build_pass_2.0=5" } => |s| step::duplicate_label(s, 2);
+    p13_gate_pass2 { prop: X13, feat: "c13", tier: thorough, mode: pass, unwind: 4, caps: "drop=1,loop:avra_lib::builder::pass1::pass_1_internal.0=7,loop:avra_lib::builder::pass2::pass_2_internal.0=7,loop:avra_lib::builder::pass1::build_pass_1.0=5,loop:avra_lib::builder::pass2::build_pass_2.0=5" } => |s| step::gate_in_pass2(s);
 }
